@@ -64,7 +64,7 @@ def Env.h2f (e : Env) (b : List UInt8) : Nat :=
 
 structure St where
   env : Env
-  inst : Option TreeDriver.Inst := none
+  inst : Option TreeDriver.TInst := none
 
 def showOutcome (o : Outcome String) : String :=
   match o with
@@ -109,7 +109,7 @@ def isHashOp (op : String) : Bool :=
 def treeStep (st : St) (w : List String) : St × String :=
   match st.inst with
   | some inst =>
-    let (inst', r) := TreeDriver.stepInst { H := st.env.H2, spec := st.env.mode == .spec } inst w
+    let (inst', r) := TreeDriver.stepT { H := st.env.H2, spec := st.env.mode == .spec } inst w
     ({ st with inst := some inst' }, r)
   | none => (st, "bad-op")
 
@@ -148,7 +148,7 @@ def step (st : St) (line : String) : St × String :=
     match depth.toNat? with
     | some d =>
       match TreeDriver.newInst { H := e.H2, spec := e.mode == .spec } backend d with
-      | some inst => ({ st with inst := some inst }, "ok")
+      | some inst => ({ st with inst := some { inst := inst } }, "ok")
       | none => (st, "bad-op")
     | none => (st, "bad-op")
   | w => treeStep st w
